@@ -121,6 +121,7 @@ type SrvWorld struct {
 	blockOwner *laneState
 	nextID     uint32
 	skippedID  uint32
+	fcSent     int64 // flow-controlled octets the peer has sent (padding included)
 	opsSent    int
 
 	// peer as sender: windows advertised by the server
@@ -272,9 +273,14 @@ func (w *SrvWorld) noteSettingsAcked() {
 	w.ackedSettings++
 }
 
-func kindMask(names []string) (m [8]bool) {
+func kindMask(names []string) (m [simrt.NKinds]bool) {
+	m[simrt.KUnlock] = true // park points right after an unlock are off unless the plan switches them on
 	for _, n := range names {
-		for k := simrt.Kind(0); k < 8; k++ {
+		if n == "unlock-on" {
+			m[simrt.KUnlock] = false
+			continue
+		}
+		for k := simrt.Kind(0); int(k) < simrt.NKinds; k++ {
 			if k.String() == n {
 				m[k] = true
 			}
@@ -775,7 +781,19 @@ func splitBlock(blk []byte, permille []int) [][]byte {
 		out = append(out, blk[last:c])
 		last = c
 	}
-	return append(out, blk[last:])
+	out = append(out, blk[last:])
+	// no fragment larger than the receiver's SETTINGS_MAX_FRAME_SIZE (16384 on both sides here), with room for the
+	// padding and priority fields the first frame may carry
+	const limit = 16000
+	var fit [][]byte
+	for _, p := range out {
+		for len(p) > limit {
+			fit = append(fit, p[:limit])
+			p = p[limit:]
+		}
+		fit = append(fit, p)
+	}
+	return fit
 }
 
 func (w *SrvWorld) refID(l *laneState, op *Op) uint32 {
@@ -984,6 +1002,7 @@ func (w *SrvWorld) laneSend(l *laneState) {
 		fb := w.fw.Data(id, op.EndStream, body, op.Pad)
 		n := int64(len(fb) - 9)
 		w.sendConnWin -= n
+		w.fcSent += n
 		l.sendWin -= n
 		if op.Pad >= 0 {
 			w.Probes["data-padded"]++
@@ -1094,7 +1113,7 @@ func (w *SrvWorld) EnvActions() []Action {
 	}
 	// gates
 	for _, g := range w.gates {
-		if !g.open && !(w.plan.GateMode == "hold" && w.phase < 4) && !(w.plan.GateMode == "walk-hold" && w.phase < 1) {
+		if !g.open && !(w.plan.GateMode == "hold" && w.phase < 4) && !(w.plan.GateMode == "walk-hold" && w.phase < 1) && !(w.plan.GateMode == "after-rst" && !w.rstSeenFor(g.rid)) {
 			g := g
 			wt := 5
 			if w.phase >= 1 {
@@ -1262,4 +1281,15 @@ func (w *SrvWorld) overCommitted(l *laneState) bool {
 		n++
 	}
 	return n >= limit
+}
+
+// rstSeenFor: gate mode "after-rst" keeps the handler of an offending lane in its gate until the peer has received the
+// server's RST_STREAM for that lane's stream (so that the offending frame certainly met a stream whose handler was
+// still running); handlers of other lanes are released at any time.
+func (w *SrvWorld) rstSeenFor(rid int) bool {
+	if rid < 0 || rid >= len(w.lanes) || w.lanes[rid].lane.Offender == "" {
+		return true
+	}
+	ps := w.Streams[w.lanes[rid].id]
+	return ps != nil && len(ps.RST) > 0
 }
